@@ -61,6 +61,8 @@ def build_conn(b, seed, params=None):
                 cdata += dta
             elif f["ft"] == "stream":
                 nbytes = rng.choice([1, 7, 40, 200, 900])
+                if p.get("big_dgrams") and pk["t"] == "A" and sum(1 for x in fr if x["ft"] == "stream") == 1 and rng.random() < 0.4:
+                    nbytes = rng.choice([1400, 21000, 60000])      # up to (nearly) the largest UDP payload: nothing on the way may assume an MTU or a snap length
                 dta = filler(f"{d}{f['a']}".encode(), nbytes)
                 payload[f["a"]] = dta
                 sid = rng.choice([0, 4, 8]) + (1 if d == "s" and rng.random() < 0.3 else 0) if pk["t"] != "Z" else 0
@@ -98,6 +100,8 @@ def build_conn(b, seed, params=None):
                     cidseq[d] += 1
                 elif k == "done":
                     out += Q.f_handshake_done()
+                elif k == "close":      # CONNECTION_CLOSE (transport or application variant); whatever the peer still had in flight keeps arriving behind it
+                    out += Q.f_connection_close(rng.choice([0, 0x0A, 0x100]), rng.choice([None, 0, 0x1C]), rng.choice([b"", b"bye", b"idle timeout"]), w=w)
                 elif k == "fin0":       # FIN-only STREAM frame: no data, offset = what the stream has carried so far
                     sid = rng.choice([0, 4, 8])
                     out += Q.f_stream(sid, b"", off=soff.get((d, sid), 0) or None, fin=True, with_len=rng.random() < 0.7 or i < len(fr) - 1, w=w)
@@ -190,7 +194,7 @@ def run_quic(b, seed, params=None, opts=(), flow=None, trace=False, extra_dgrams
             from wire.l2l4 import Endpoint, Flow
             fl2 = Flow(Endpoint(fl.client.mac, fl.client.ip, fl.client.port + 7), fl.server)
         cap = udp_capture([((fl2 if mig is not None and i >= mig and g.packets and all(m["level"] == "a" for m in g.packets) else fl), g.d, g.payload, g)
-                           for i, g in enumerate(c.dgrams)], cap=Capture(ts0=1_700_000_000_000_000 + seed % 999_983, step=(params or {}).get("ts_step") or 1009))
+                           for i, g in enumerate(c.dgrams)], cap=Capture(ts0=(0 if (params or {}).get("ts_zero") else 1_700_000_000_000_000 + seed % 999_983), step=(params or {}).get("ts_step") or 1009))
     finally:
         _l.VARIATION.clear()
     if (params or {}).get("ts_equal"):      # a coarse capture clock: a datagram may carry exactly the time of the previous one when that one travelled
@@ -230,7 +234,7 @@ def run_quic(b, seed, params=None, opts=(), flow=None, trace=False, extra_dgrams
         data = pcapng_bytes([((t0n + i * sub, 10 ** 9), fr) for i, (_t, fr) in enumerate(pk)], tsresol=9)
     else:
         data = pcapng_bytes(pk)
-    res = runner.run_inproc(data, "\n".join(c.keylog) + "\n", opts=list(opts), trace=trace)
+    res = runner.run_inproc(data, "\n".join(c.keylog) + "\n", opts=list(opts), trace=trace, stale_out=(params or {}).get("stale_out"))
     return c, payload, fl, cap, res
 
 
